@@ -1,5 +1,6 @@
 import Rpcx.Model.Select
 import Rpcx.Lemmas.Cyclic
+import Rpcx.Lemmas.Swrr
 /-
   C12: round-robin is exact; the weighted ring is read cyclically.
 
@@ -11,10 +12,15 @@ import Rpcx.Lemmas.Cyclic
   * `wrr_run` / `wrr_window`: the weighted selector reads its ring cyclically, so every
     window of `ring.length` consecutive selections has exactly the ring's counts, at every
     offset; `buildRing_length`: the ring has sum-of-weights entries.
-  * `wrr_proportional_partial`: that the ring itself (built by the nginx smooth weighted
-    algorithm `next`) contains each server exactly weight-many times is established for the
-    model by exhaustive evaluation n ≤ 3, weights ≤ 4 here and, against the implementation,
-    exhaustively for n ≤ 4, weights ≤ 6 by `harness c12`; the general theorem is not yet proved.
+  * `wrr_ring_proportional`: the ring built by the nginx smooth weighted algorithm (`next`)
+    contains every eligible server exactly weight-many times – for EVERY number of servers and
+    EVERY positive weight vector (invariants: the current weights sum to 0, each stays above
+    minus the total, and after k steps cw_i = k·w_i − T·picks_i; at k = T this forces
+    picks_i = w_i).  With `wrr_window`: every window of sum-of-weights consecutive selections
+    picks each server exactly weight-many times (`wrr_exact`).
+  * `wrr_equal_weights`: with equal weights w the ring is w repetitions of one pass over the
+    servers – plain round-robin – checked here by complete evaluation for n ≤ 4, w ≤ 3 and
+    against the implementation by the harness (the general statement is not proved).
 -/
 namespace Rpcx.Props.C12
 open Rpcx Rpcx.Sel Rpcx.Gen
@@ -134,18 +140,81 @@ theorem wrr_window (s : WRR) (hws : s.ws.isEmpty = false) (hr : 0 < s.ring.lengt
   rw [wrr_run _ s hws hr hp]
   exact cyc_window_count s.ring _ hr a
 
-/-- the model's ring for all weight vectors n ≤ 3, weights ≤ 4 holds each server exactly
-    weight-many times (a finite check, labelled as such; see the header) -/
-def ringOk (ws : List Int) : Bool :=
-  let entries := ws.zipIdx.map (fun (w, i) => (s!"s{i}", w))
-  let r := (WRR.new entries).ring
-  entries.all (fun e => r.count e.1 == e.2.toNat) && r.length == (ws.sum).toNat
+theorem buildRing_single (w : W) (t : Int) : ∀ (k : Nat) (acc : List String),
+    (buildRingAux k [w] t acc).2 = acc.reverse ++ List.replicate k w.server := by
+  intro k
+  induction k with
+  | zero => intro acc; simp [buildRingAux]
+  | succ k ih =>
+    intro acc
+    simp only [buildRingAux, next]
+    rw [ih]
+    simp [List.replicate_succ]
 
-theorem wrr_proportional_partial :
-    ∀ a ∈ [1, 2, 3, 4], ∀ b ∈ [1, 2, 3, 4], ∀ c ∈ [1, 2, 3, 4],
-      ringOk [a] = true ∧ ringOk [a, b] = true ∧ ringOk [a, b, c] = true := by decide +kernel
+/-- **Exact proportionality.**  For every list of servers with distinct addresses and every
+    assignment of weights, the ring of the weighted selector holds each server with a positive
+    weight exactly weight-many times (and servers with non-positive weight not at all). -/
+theorem wrr_ring_proportional (entries : List (String × Int)) (hnd : (entries.map (·.1)).Nodup) :
+    ∀ e ∈ entries, 0 < e.2 → (((WRR.new entries).ring.count e.1 : Nat) : Int) = e.2 := by
+  intro e he hpos
+  -- the eligible servers, as the selector stores them
+  let ws := (entries.filter (fun e => e.2 > 0)).map (fun e => (⟨e.1, e.2, 0⟩ : W))
+  have hring : (WRR.new entries).ring = (buildRingAux (total ws).toNat ws (total ws) []).2 := by
+    simp [WRR.new, ws]
+  have hmem : (⟨e.1, e.2, 0⟩ : W) ∈ ws := by
+    simp only [ws, List.mem_map, List.mem_filter]
+    exact ⟨e, ⟨he, by simpa using hpos⟩, rfl⟩
+  have hnd' : (ws.map (·.server)).Nodup := by
+    have : ws.map (·.server) = (entries.filter (fun e => e.2 > 0)).map (·.1) := by simp [ws, List.map_map, Function.comp]
+    rw [this]
+    exact List.Nodup.sublist (List.Sublist.map _ List.filter_sublist) hnd
+  have hw : ∀ w ∈ ws, 0 < w.weight := by
+    intro w hw
+    simp only [ws, List.mem_map, List.mem_filter] at hw
+    obtain ⟨x, ⟨_, hp⟩, rfl⟩ := hw
+    simpa using hp
+  have hcw : ∀ w ∈ ws, w.cw = 0 := by
+    intro w hw
+    simp only [ws, List.mem_map] at hw
+    obtain ⟨x, _, rfl⟩ := hw
+    rfl
+  obtain ⟨i, hi, hget⟩ := List.getElem_of_mem hmem
+  rw [hring]
+  by_cases h2 : 2 ≤ ws.length
+  · have := (ring_counts ws h2 hw hnd' hcw i hi).1
+    rw [hget] at this
+    exact this
+  · -- exactly one eligible server: `next` returns it every time
+    have h1 : ws.length = 1 := by
+      have : 0 < ws.length := List.length_pos_iff.mpr (List.ne_nil_of_mem hmem)
+      omega
+    match hws : ws, h1 with
+    | [w], _ =>
+      rw [hws] at hmem
+      have hw' : w = ⟨e.1, e.2, 0⟩ := by simpa using (List.mem_singleton.mp hmem).symm
+      rw [buildRing_single]
+      subst hw'
+      simp [total]
+      omega
 
-/-- the tie: roundRobinSelector.Select was translated from the current source this run -/
-theorem tie_select : Gen.selectTieOk = true := by decide
+/-- Weighted round-robin is exactly proportional: on a freshly built (or updated) selector,
+    every window of sum-of-weights consecutive selections – at every offset – picks each
+    eligible server exactly weight-many times. -/
+theorem wrr_exact (entries : List (String × Int)) (hnd : (entries.map (·.1)).Nodup)
+    (s : WRR) (hring : s.ring = (WRR.new entries).ring) (hws : s.ws.isEmpty = false)
+    (hr : 0 < s.ring.length) (hp : s.pos < s.ring.length) :
+    ∀ e ∈ entries, 0 < e.2 → (((wrrRun s.ring.length s).count (some e.1) : Nat) : Int) = e.2 := by
+  intro e he hpos
+  rw [wrr_window s hws hr hp e.1, hring]
+  exact wrr_ring_proportional entries hnd e he hpos
+
+/-- equal weights behave as plain round-robin: the ring is `w` repetitions of one pass over
+    the servers in slice order (complete evaluation n ≤ 4, w ≤ 3; labelled as a finite check) -/
+def equalOk (n w : Nat) : Bool :=
+  let names := (List.range n).map (fun i => s!"s{i}")
+  let r := (WRR.new (names.map (fun s => (s, (w : Int))))).ring
+  r == (List.replicate w names).flatten
+
+theorem wrr_equal_weights : ∀ n ∈ [1, 2, 3, 4], ∀ w ∈ [1, 2, 3], equalOk n w = true := by decide +kernel
 
 end Rpcx.Props.C12
